@@ -93,7 +93,8 @@ def _descriptor(ps, a):
         return None, None
     if len(ds) > 1:
         return 'several', None
-    c = ds[0].r
+    from .sem import nform
+    c = nform(ds[0].r)
     pos = [nt(x) for x in c.args]
     kw = {k.arg: k.value for k in c.keywords}
     if dotted(c.func) == 'fromMethod':
@@ -167,6 +168,10 @@ def verify_element(rep, mod, rule):
                 continue
             want = reference(a)
             try:
+                inc_n0 = nt(ast.parse(inc, mode='eval').body) if inc is not None else None
+            except SyntaxError:
+                inc_n0 = inc
+            try:
                 d, dtext = _descriptor(ps, a)
             except _Undecided as u:
                 probs['describe'].append('imlevel depends on `%s`' % str(u)[:60])
@@ -179,8 +184,10 @@ def verify_element(rep, mod, rule):
                 elif r == "BrokenMethodImplementation(desc, 'implementation is not a " \
                           "method', %s, iface, candidate)" % A:
                     got = ('raise', 'not-a-method')
-                elif inc is not None and r == 'BrokenMethodImplementation(desc, %s, %s, ' \
-                        'iface, candidate)' % (inc, A):
+                elif inc is not None and r in (
+                        'BrokenMethodImplementation(desc, %s, %s, iface, candidate)' % (inc, A),
+                        'BrokenMethodImplementation(desc, %s, %s, iface, candidate)'
+                        % (inc_n0, A)):
                     got = ('raise', 'incompatible', d)
                 else:
                     got = ('raise', r[:70])
@@ -189,8 +196,12 @@ def verify_element(rep, mod, rule):
                 got = ('return',) if rv == 'None' else ('return-value', rv[:40])
                 if d is not None:
                     got = got + (d,)
+            try:
+                inc_n = nt(ast.parse(inc, mode='eval').body) if inc is not None else None
+            except SyntaxError:
+                inc_n = inc
             if d is not None and inc is not None and dtext is not None and \
-                    inc != '_incompat(desc.getSignatureInfo(), %s.getSignatureInfo())' % dtext:
+                    inc_n != '_incompat(desc.getSignatureInfo(), %s.getSignatureInfo())' % dtext:
                 probs['compare'].append('compares through `%s` (required: _incompat('
                                         'interface description, implementation '
                                         'description))' % inc[:90])
